@@ -108,6 +108,23 @@ def names_by_position(objs, object_names) -> list:
     return out
 
 
+def used_ids(objs) -> dict:
+    """ufl_id of the meshes and counts of the constants the objects are made of."""
+    import ufl
+
+    meshes, consts = set(), set()
+    for o in objs:
+        if isinstance(o, ufl.Form):
+            meshes |= {d.ufl_id() for d in o.ufl_domains()}
+            for itg in o.integrals():
+                meshes |= {d.ufl_id() for d in ufl.domain.extract_domains(itg.integrand())}
+            consts |= {c.count() for c in o.constants()}
+        elif isinstance(o, tuple) and isinstance(o[0], ufl.core.expr.Expr):
+            meshes |= {d.ufl_id() for d in ufl.domain.extract_domains(o[0])}
+            consts |= {c.count() for c in ufl.algorithms.analysis.extract_constants(o[0])}
+    return {"mesh": sorted(meshes), "constant": sorted(consts)}
+
+
 def options_key(opts: dict) -> list:
     return sorted((str(k), str(v)) for k, v in opts.items())
 
@@ -257,8 +274,11 @@ class Life:
         opts = ffcx.options.get_options(dict(corpus.OPTS[ev["opt"]]))
         ns = ev["tmpl"][5:] if ev["tmpl"].startswith("demo:") else "ns"
         sigs = [object_signature(o) for o in objs]
+        out_ids = used_ids(objs)
         key = [sigs, names_by_position(objs, onames), options_key(opts), ns]
-        out = {"sigkey": sha1(json.dumps(key)), "nobjs": len(objs)}
+        out = {"sigkey": sha1(json.dumps(key)), "nobjs": len(objs), "ids": out_ids,
+               # UFL orders some operands by the decimal *string* of these ids (ufl/sorting.py, _cmp_terminal_by_repr)
+               "id_lex_ok": sorted(out_ids["mesh"]) == sorted(out_ids["mesh"], key=str)}
         try:
             kw = {"object_names": onames} if onames is not None else {}
             code, suffixes = ffcx.compiler.compile_ufl_objects(objs, options=opts, namespace=ns, **kw)
